@@ -126,10 +126,13 @@ def verdict(ptype, cfg, v):
                 if _in_bounds(x, bounds, inclusive) is False:
                     return False
             step = cfg.get("step")
-            if step is not None and step > 0 and not v[0] <= v[1]:
-                return False
-            if step is not None and step < 0 and not v[0] >= v[1]:
-                return False
+            try:
+                if step is not None and step > 0 and not v[0] <= v[1]:
+                    return False
+                if step is not None and step < 0 and not v[0] >= v[1]:
+                    return False
+            except TypeError:
+                return False      # unorderable ends (complex): no valid order
             return True
         if ptype == "DateRange":
             if not all(isinstance(x, (dt.date, dt.datetime)) for x in v):
